@@ -925,6 +925,10 @@ func checkAllocBounds(p *Program, r *Report) {
 			r.Hold("C09.A1", s.Key, pos, "constant length and capacity")
 			continue
 		}
+		if len(mine) == 0 && heldLenExpr(s.In.Len, nil) && (s.In.Cap == nil || heldLenExpr(s.In.Cap, nil)) {
+			r.Hold("C09.A1", s.Key, pos, "sized by constants and len()/cap() of values already held (no input-declared quantity, no accumulation)")
+			continue
+		}
 		if len(mine) == 0 {
 			r.Undecide("C09.A1", s.Key, pos, "this allocation site is not reached by the abstract interpretation of any parser entry: its size cannot be judged")
 			continue
@@ -1029,6 +1033,49 @@ func loopsOf(fn *ssa.Function) map[*ssa.BasicBlock]map[*ssa.BasicBlock]bool {
 
 // narrowValue: the value is a constant, at most 16 bits wide at its source,
 // or a len()/cap() of held data (through conversions and arithmetic with constants).
+// heldLenExpr: v is built only from constants, len()/cap() of values, sums of
+// those and multiplication by a constant — no input byte, no loop-carried
+// accumulation (a phi reached again through its own edges is refused).
+func heldLenExpr(v ssa.Value, seen map[ssa.Value]bool) bool {
+	if seen == nil {
+		seen = map[ssa.Value]bool{}
+	}
+	if seen[v] {
+		return false
+	}
+	seen[v] = true
+	defer delete(seen, v)
+	switch x := v.(type) {
+	case *ssa.Const:
+		return true
+	case *ssa.Convert:
+		return heldLenExpr(x.X, seen)
+	case *ssa.ChangeType:
+		return heldLenExpr(x.X, seen)
+	case *ssa.Call:
+		if b, ok := x.Call.Value.(*ssa.Builtin); ok && (b.Name() == "len" || b.Name() == "cap") {
+			return true
+		}
+	case *ssa.BinOp:
+		switch x.Op {
+		case token.ADD:
+			return heldLenExpr(x.X, seen) && heldLenExpr(x.Y, seen)
+		case token.MUL:
+			_, cx := x.X.(*ssa.Const)
+			_, cy := x.Y.(*ssa.Const)
+			return (cx || cy) && heldLenExpr(x.X, seen) && heldLenExpr(x.Y, seen)
+		}
+	case *ssa.Phi:
+		for _, e := range x.Edges {
+			if !heldLenExpr(e, seen) {
+				return false
+			}
+		}
+		return true
+	}
+	return false
+}
+
 func narrowValue(v ssa.Value, depth int) bool {
 	if depth > 8 {
 		return false
@@ -1423,14 +1470,25 @@ func checkLoopProgress(p *Program, r *Report) {
 						}
 					}
 				}
+				// emptying or shortening a write buffer (bytes.Buffer / strings.Builder Reset, Truncate) drops
+				// bytes, it does not bring consumed input back; Discard skips forward only
+				if name == "Reset" || name == "Truncate" {
+					var rt types.Type
+					if cf := staticCallee(c); cf != nil && cf.Signature.Recv() != nil {
+						rt = cf.Signature.Recv().Type()
+					}
+					if rt != nil && (namedIs(rt, "bytes", "Buffer") || namedIs(rt, "strings", "Builder")) {
+						continue
+					}
+				}
 				switch name {
-				case "Seek", "UnreadByte", "UnreadRune", "Reset", "Discard", "Peek", "Truncate":
+				case "Seek", "UnreadByte", "UnreadRune", "Reset", "Peek", "Truncate":
 					bad = fmt.Sprintf("%s calls %s at %s: repositioning a reader lets input-declared values move it backwards so that the same bytes are parsed again without ever reaching EOF", shortFn(f), name, p.InstrPos(in))
 				}
 			}
 		}
 	}
-	r.Check(bad == "", "C09.L2", "no reader repositioning", "-", fmt.Sprintf("%d calls scanned: no Seek/Unread*/Reset/Discard/Peek on any reader in meta/...; stream positions only move forward", n), bad)
+	r.Check(bad == "", "C09.L2", "no reader repositioning", "-", fmt.Sprintf("%d calls scanned: no Seek/Unread*/Reset/Peek on any reader in meta/...; stream positions only move forward", n), bad)
 	_ = nLoops
 }
 
